@@ -9,6 +9,7 @@ import (
 	"fmt"
 	"path/filepath"
 	"strings"
+	"sync"
 	"time"
 
 	"github.com/compose-spec/compose-go/v2/loader"
@@ -142,13 +143,16 @@ func C20(c *core.Ctx) {
 		c.Inconclusive("Secrets specification violates " + r.Violated)
 		return
 	}
-	n := 0
-	_, err = core.ReadDump(dump+".dump", func(vars map[string]interface{}) error {
+	total := 0
+	var tmu sync.Mutex
+	_, err = core.ReadDumpParallel(dump+".dump", 8, func(n int, vars map[string]interface{}) error {
 		sc := asMap(vars["sc"])
 		if _, seed := sc["seed"]; seed {
 			return nil
 		}
-		n++
+		tmu.Lock()
+		total++
+		tmu.Unlock()
 		if (n+int(c.Seed))%step != 0 {
 			return nil
 		}
@@ -288,6 +292,7 @@ func C20(c *core.Ctx) {
 		c.Inconclusive("cannot read scenarios: " + err.Error())
 		return
 	}
+	n := total
 	c.AddTraces(int64(n / step))
 	c.Set("scenarios_enumerated", n)
 	c.Set("scenarios_replayed", n/step)
